@@ -62,6 +62,7 @@ struct array {
     [[nodiscard]] constexpr auto operator[](size_type const pos) noexcept -> reference
     {
         if constexpr (Size == 0) {
+            TETL_PRECONDITION_SAFE(Size != 0);
             etl::unreachable();
         } else {
             TETL_PRECONDITION_SAFE(pos < Size);
@@ -73,6 +74,7 @@ struct array {
     [[nodiscard]] constexpr auto operator[](size_type const pos) const noexcept -> const_reference
     {
         if constexpr (Size == 0) {
+            TETL_PRECONDITION_SAFE(Size != 0);
             etl::unreachable();
         } else {
             TETL_PRECONDITION_SAFE(pos < Size);
@@ -81,16 +83,36 @@ struct array {
     }
 
     /// Accesses the first item.
-    [[nodiscard]] constexpr auto front() noexcept -> reference { return *begin(); }
+    /// \pre Size != 0
+    [[nodiscard]] constexpr auto front() noexcept -> reference
+    {
+        TETL_PRECONDITION(Size != 0);
+        return *begin();
+    }
 
     /// Accesses the first item.
-    [[nodiscard]] constexpr auto front() const noexcept -> const_reference { return *begin(); }
+    /// \pre Size != 0
+    [[nodiscard]] constexpr auto front() const noexcept -> const_reference
+    {
+        TETL_PRECONDITION(Size != 0);
+        return *begin();
+    }
 
     /// Accesses the last item.
-    [[nodiscard]] constexpr auto back() noexcept -> reference { return *etl::prev(end()); }
+    /// \pre Size != 0
+    [[nodiscard]] constexpr auto back() noexcept -> reference
+    {
+        TETL_PRECONDITION(Size != 0);
+        return *etl::prev(end());
+    }
 
     /// Accesses the last item.
-    [[nodiscard]] constexpr auto back() const noexcept -> const_reference { return *etl::prev(end()); }
+    /// \pre Size != 0
+    [[nodiscard]] constexpr auto back() const noexcept -> const_reference
+    {
+        TETL_PRECONDITION(Size != 0);
+        return *etl::prev(end());
+    }
 
     /// Returns pointer to the underlying array serving as element
     /// storage. The pointer is such that range [data(); data() + size()) is
